@@ -1,4 +1,5 @@
 import ShexerModel.Lemmas.CandLemmas
+import ShexerModel.Lemmas.KeyLemmas
 /-! C12 — raising the acceptance threshold only removes constraints.
 
 The threshold enters the pipeline at exactly one place, the filter that turns profile entries into
@@ -50,6 +51,21 @@ theorem one_universal (cfg : Config) (h1 : cfg.thNum = cfg.thDen) (hb : 0 < cfg.
   rw [passes_iff, h1] at this
   have h2 : cfg.thDen * N ≤ cfg.thDen * s.n := by rw [Nat.mul_comm cfg.thDen s.n]; exact this
   exact Nat.le_of_mul_le_mul_left h2 hb
+
+/-- **keys are monotone**: if the candidates at the higher threshold are among those at the lower one
+(`candidate_survives_down`), every constraint key present after the merge stages at the higher
+threshold is present at the lower one — whatever kind the merge chooses -/
+theorem keys_monotone (c1 c2 : Config) (l1 l2 : List Stmt) (h1 : ∀ s ∈ l1, Plain s) (hsub : ∀ s ∈ l2, s ∈ l1)
+    (hprop : c1.instProp = c2.instProp) (k : String × Spec.VClass)
+    (hk : k ∈ (selectValid c2 l2).map (keyOf c2)) : k ∈ (selectValid c1 l1).map (keyOf c1) := by
+  have h2 : ∀ s ∈ l2, Plain s := fun s hs => h1 s (hsub s hs)
+  rw [selectValid_keys c2 l2 h2] at hk
+  rw [selectValid_keys c1 l1 h1]
+  simp only [List.mem_map] at *
+  obtain ⟨s, hs, rfl⟩ := hk
+  refine ⟨s, hsub s hs, ?_⟩
+  unfold keyOf vclassOf
+  rw [hprop]
 
 /- non-vacuity -/
 example : ThresholdLe { thNum := 1, thDen := 3 } { thNum := 1, thDen := 2 } := by unfold ThresholdLe; decide
